@@ -313,6 +313,12 @@ impl FrameParser {
         self.open.is_some()
     }
 
+    /// stream that the unfinished header block (if any) opens: the stream of a HEADERS block, the promised
+    /// stream of a PUSH_PROMISE block
+    pub fn unfinished_block_opens(&self) -> Option<u32> {
+        self.open.as_ref().map(|o| if o.typ == 5 { o.promised } else { o.sid })
+    }
+
     pub fn feed(&mut self, bytes: &[u8], out: &mut Vec<Frame>) {
         let mut raws = std::mem::take(&mut self.scratch);
         raws.clear();
